@@ -110,6 +110,16 @@ func lockOrder(c *Ctx, only ...string) {
 					c.Fail("lock-across-handler", p.FuncKey(fn)+"/"+h.Class, p.InstrPos(call), "lock "+h.Class+" held across a call into "+name+" (blocks every other user of the lock for the duration of the exchange)")
 				}
 			}
+			if isClientWrite(call) {
+				// a write to the client blocks for as long as the client does not read: a stalled scraper
+				// then blocks every writer of the lock — a probe or request that has to publish its
+				// result never finishes, and Stop, which joins them, never returns
+				for _, h := range held {
+					if relevant(h.Class, h.Class) {
+						c.Fail("lock-across-handler", p.FuncKey(fn)+"/"+h.Class+"/client-write", p.InstrPos(call), "lock "+h.Class+" is held while the response is written to the client ("+name+"): a client that stops reading keeps the lock held; everything that needs it in write mode (publishing a probe result, recording a request) blocks behind it, and a shutdown that joins those goroutines hangs")
+					}
+				}
+			}
 			var acq []acqInfo
 			if op, ok := asLockOp(call); ok {
 				if op.Acquire {
@@ -235,4 +245,38 @@ func lockOrder(c *Ctx, only ...string) {
 		floor = 1
 	}
 	c.Floor("lock-order-cycle", nEdges, floor, "lock-order edges")
+}
+
+// isClientWrite: the call writes response bytes to an http.ResponseWriter (directly, or through an
+// encoder / fmt / io helper handed the writer).
+func isClientWrite(call ssa.CallInstruction) bool {
+	isRW := func(v ssa.Value) bool {
+		for i := 0; i < 4; i++ {
+			switch x := v.(type) {
+			case *ssa.ChangeInterface:
+				v = x.X
+				continue
+			case *ssa.MakeInterface:
+				v = x.X
+				continue
+			}
+			break
+		}
+		return v.Type().String() == "net/http.ResponseWriter"
+	}
+	cc := call.Common()
+	if cc.IsInvoke() {
+		return cc.Method.Name() == "Write" && cc.Value.Type().String() == "net/http.ResponseWriter"
+	}
+	switch CalleeName(call) {
+	case "net/http.Error", "fmt.Fprintf", "fmt.Fprint", "fmt.Fprintln", "io.WriteString", "io.Copy":
+		return len(cc.Args) > 0 && isRW(cc.Args[0])
+	case "(*encoding/json.Encoder).Encode":
+		if len(cc.Args) > 0 {
+			if mk, ok := cc.Args[0].(*ssa.Call); ok && CalleeName(mk) == "encoding/json.NewEncoder" && len(mk.Call.Args) == 1 {
+				return isRW(mk.Call.Args[0])
+			}
+		}
+	}
+	return false
 }
